@@ -18,8 +18,13 @@ xml.etree / lxml tree; xmlschema.XMLSchema10/11(xsd).xpath_proxy is the schema p
              SchemaWalk graph (context.schema = proxy_k / None, first access of .attributes),
              BFS prefix through transitions that passed; compared with the post-state and, after
              reading everything, with Annot(current schema)
-  select   : every edge of the SchemaSelect graph = one path (<= 2 steps) evaluated with and
-             without the schema; node ids by object identity / (owner, attribute name)
+  select   : every edge of the SchemaSelect graph = one path (<= 2 steps) evaluated with the
+             schema, without it and -- when the PSVI adds attributes -- schema-less on the same
+             document with those attributes written out; node ids by object identity / (owner,
+             attribute name).  C20 is judged on the RELATION the property states (with == without;
+             with == schema-less on the materialised PSVI): a schema-less result that departs from
+             the spec / libxml2 is property C01's business (counted as select_baseline_mismatch_C01,
+             e.g. attribute::* from an attribute context node), never a C20 failure.
 Second oracles for the SPEC (disagreement = MachineryError): xmlschema validates every instance
 and decodes every lexical (the oracle the property names); libxml2 evaluates every path on the
 schema-less tree.
